@@ -335,8 +335,9 @@ Inductive case :=
 | CJobs (workers : nat) (outs : list (outcome Z Z)) (sched : list jaction)
         (items : list (option nat * Z)) (raised : option Z) (summ : list (option Z)) (srt : list (nat * Z))
         (evals : list nat)
-(* real GridSearch.fit / Sensitivity.run on number_of_cores = workers + 1: [raised] = None (returned), Some None (an
-   exception whose origin cannot be read off), Some (Some c) (the exception of cell c); [stored] = index column of
+(* real GridSearch.fit / Sensitivity.run on number_of_cores = workers + 1: [raised] = None (returned), Some (Some c)
+   (the exception of cell c), Some None (some other exception: never what the code as it is now -- both consumer
+   loops re-raise the yielded exception, grid search since 74ff428 -- does, so it never matches); [stored] = index column of
    results.csv (arrival order, or sorted for Sensitivity); [final] = what the returned result holds per cell *)
 | CCaller (sorted_csv : bool) (workers : nat) (outs : list (outcome Z Z)) (sched : list jaction)
           (raised : option (option Z)) (stored : list nat) (final : list (option Z)).
@@ -358,7 +359,6 @@ Definition check_case (c : case) : bool :=
       let (r, acc) := consume (jtaken s) [] in
       (match raised, r with
        | None, None => jdone s
-       | Some None, Some _ => true
        | Some (Some c), Some e => Z.eqb c e
        | _, _ => false
        end)
